@@ -19,7 +19,7 @@ MANIFEST = dict(
          "that to all histories. Finding D7 is proved as a theorem about the shipped table (teardown delivered while facade is None) and "
          "reproduced on the real manager. Tie: translator + differential correspondence with the REAL GeckoAsyncSpaMan (locator.discover, "
          "GeckoAsyncSpa._connect, async_get_watercare and the facade constructor scripted) on the virtual loop, including calls parked at any "
-         "delivery/await while other calls run; direct monitors on the real manager. Session 4: every error scenario x reset origin is run on the real stack with a suspending client handler and the reset must land in IDLE; the guard `self._spa is not None` is part of the translated vocabulary (.spaSome). The order inside GeckoAsyncSpa.disconnect() is a theorem over its regenerated suspension skeleton (disconnect_order: announced before the spa cancels its own tasks, nothing suspends between that cancellation and the last clean-up step). every_started_phase_is_closed: over the regenerated skeletons, the FINISHED announcement is awaited on every exit of the locate / connect phase, cancellation at any await included (resource monitor, sound by releasedOnEveryExit_sound). A reset from another task while the sequence pump is suspended in the client`s facade-ready handler: phases closed, manager reconnects. Round 14: a user reset with a client whose disconnection handlers are slower than a discovery (genuine defect D16, fix 124e61a) - real stack. Round 15: a monitor for the 'needs attention' row of the state table that does not go through the model (terminal errors delivered while a spa object exists).",
+         "delivery/await while other calls run; direct monitors on the real manager. Session 4: every error scenario x reset origin is run on the real stack with a suspending client handler and the reset must land in IDLE; the guard `self._spa is not None` is part of the translated vocabulary (.spaSome). The order inside GeckoAsyncSpa.disconnect() is a theorem over its regenerated suspension skeleton (disconnect_order: announced before the spa cancels its own tasks, nothing suspends between that cancellation and the last clean-up step). every_started_phase_is_closed: over the regenerated skeletons, the FINISHED announcement is awaited on every exit of the locate / connect phase, cancellation at any await included (resource monitor, sound by releasedOnEveryExit_sound). A reset from another task while the sequence pump is suspended in the client`s facade-ready handler: phases closed, manager reconnects. Round 14: a user reset with a client whose disconnection handlers are slower than a discovery (genuine defect D16, fix 124e61a) - real stack. Round 15: a monitor for the 'needs attention' row of the state table that does not go through the model (terminal errors delivered while a spa object exists). Round 16: the client's handler raises, or the caller is cancelled, at each delivery of a locate / connect call in turn (explore_handler_faults) - every phase whose started event was delivered is closed.",
     note="Trusted: Lean kernel, translator (an unknown statement refuses), correspondence harness. The content of locate/connect is abstracted to its "
          "event sequence (C01/C06/C15). Theorems other than the delivery/status one are about calls that are not interleaved; interleavings are "
          "covered by correspondence + search to bounded depth. Locate/connect are assumed to be issued as the sequence pump does (one at a time, "
@@ -129,12 +129,16 @@ ENV = contextvars.ContextVar("c08_env")      # {"found","loc_raises","path","fac
 class Ctl:
     """suspension control of one task: `budget` suspension points are passed, the next one parks (None = never park)"""
 
-    def __init__(self, budget):
+    def __init__(self, budget, fault_at=None):
         self.budget = budget
         self.gate = None
         self.settled = asyncio.get_running_loop().create_future()
+        self.fault_at, self.points = fault_at, 0      # the client's handler FAILS at its `fault_at`-th delivery (0-based)
 
     async def point(self):
+        self.points += 1
+        if self.fault_at is not None and self.points - 1 == self.fault_at:
+            raise StubError("the client's event handler failed")
         if self.budget is None:
             await asyncio.sleep(0)
             return
@@ -677,6 +681,56 @@ EXPECT = {"teardown-without-facade": "every CLIENT_FACADE_TEARDOWN is delivered 
           "implementation-broke-the-rig": "the manager can be driven through its public calls"}
 
 
+def explore_handler_faults():
+    """the client's own event handler FAILS (raises) or the calling task is CANCELLED while one particular delivery of a locate /
+    connect call is being handled - every delivery of the call in turn, the opening *_STARTED event included. Whatever happens to the
+    call: every phase whose started event was delivered is closed by its finished event. Returns the list of problems."""
+    out = []
+
+    async def body(loop):
+        try:
+            ok, fails, raises, rt = connect_paths()
+            ops = ["locate:f1", "locate:f0", f"connect:{path_str(ok)}:0", f"aconnect:f1:{path_str(ok)}:0"] + [f"connect:{path_str(p)}:0" for p in (fails[:1] + raises[:1])]
+        except Exception:  # noqa - the table of this tree could not be translated: the calls of the audited commit
+            okp = [a for a in FALLBACK_ALPHABET if a.startswith("connect:") and "SPA_COMPLETE" in a][0].split(":")[1]
+            ops = ["locate:f1", "locate:f0", f"connect:{okp}:0", f"aconnect:f1:{okp}:0", "connect:OPEN,USE,CONNECTION_PROTOCOL_RETRY_COUNT_EXCEEDED:0", "connect:RAISE:0"]
+        with patched():
+            for op in ops:
+                for how in ("raise", "cancel"):
+                    for k in range(0, 14):
+                        rig = Rig(True, True)
+                        await rig.start("enter", None)
+                        rig.cur = {"deliveries": [], "op": short(op)}
+                        ctl = Ctl(None if how == "raise" else k, fault_at=k if how == "raise" else None)
+                        rec = {"op": op, "events": [], "pre_state": rig.man.spa_state.name, "interleaved": False, "pre_spa": rig.man._spa is not None}
+                        env = env_of(op)
+                        env.update(ctl=ctl, rec=rec, rig=rig)
+                        task = asyncio.ensure_future(rig._task(op, env))
+                        how_settled = await ctl.settled
+                        if how == "cancel":
+                            if how_settled != "parked":
+                                break               # the call has fewer deliveries than k
+                            ctl.budget = None       # (the handlers of the events delivered on the way out return at once)
+                            task.cancel()
+                        try:
+                            await task
+                        except BaseException:  # noqa
+                            pass
+                        await asyncio.sleep(0)
+                        if how == "raise" and ctl.points <= k:
+                            break                   # the call has fewer deliveries than k
+                        n0 = len(rig.problems)
+                        rec["interleaved"] = True    # (only the bracket monitors are meant here)
+                        rig._check_call_end(rec)
+                        for pr in rig.problems[n0:]:
+                            if pr[0].startswith("phase-"):
+                                out.append({"call": short(op), "fault": how, "at delivery": k, "delivered": rec["events"][:k + 1][-3:], "problem": list(pr),
+                                            "state afterwards": rig.man.spa_state.name})
+                        rig.close()
+    vloop.run_virtual(body)
+    return out
+
+
 def explore_reset_in_ready_handler():
     """REAL stack: the sequence pump is suspended inside the client's handler of CLIENT_FACADE_IS_READY (delivered while the
     connect phase is being closed) when a reset arrives from ANOTHER task (a Reconnect press); the handler is then released.
@@ -870,6 +924,18 @@ def run(ctx):
     except Exception as e:  # noqa
         ctx.obligation_broken("harness:real-stack-resets", f"{type(e).__name__}: {e}")
 
+    # ---- a client handler that fails, or a caller that is cancelled, at each delivery of a locate / connect call
+    try:
+        hf = explore_handler_faults()
+        ctx.count("evaluations", 6 * 2 * 8)
+        ctx.cov["handler_faults_problems"] = len(hf)
+        if hf:
+            ctx.violation("phase-not-closed:handler-fault:" + hf[0]["fault"], {"kind": "handler-fault"},
+                          "every locate / connect phase whose started event was delivered is closed by its finished event, also when the client's handler of an event "
+                          "of the phase fails or the caller is cancelled there", hf[:3])
+    except Exception as e:  # noqa
+        ctx.obligation_broken("harness:handler-faults", f"{type(e).__name__}: {e}")
+
     # ---- D2: a reset from another task while the pump is suspended in the client's facade-ready handler (real stack)
     try:
         rr = explore_reset_in_ready_handler()
@@ -941,6 +1007,9 @@ def run(ctx):
 
 
 def replay(inp):
+    if inp.get("kind") == "handler-fault":
+        hf = explore_handler_faults()
+        return bool(hf), hf[:3] or "every started phase is closed"
     if inp.get("kind") == "reset-in-ready-handler":
         rr = explore_reset_in_ready_handler()
         bad = [k for k, (a, b) in rr["brackets"].items() if a != b]
